@@ -10,10 +10,12 @@ import (
 	"github.com/ethereum/go-ethereum/rlp"
 	"pgregory.net/rapid"
 
+	paction "github.com/Oneledger/protocol/action"
 	agov "github.com/Oneledger/protocol/action/governance"
 	"github.com/Oneledger/protocol/data/balance"
 	"github.com/Oneledger/protocol/data/governance"
 	"github.com/Oneledger/protocol/data/keys"
+	"github.com/Oneledger/protocol/serialize"
 	"github.com/Oneledger/protocol/vm"
 
 	"verif/sim"
@@ -227,17 +229,19 @@ func oltWhole(n int64) *big.Int { return new(big.Int).Mul(big.NewInt(n), e18) }
 func (g *Gen) note(tx txgen.Tx) txgen.Tx {
 	// the signature list is not covered by any signature: somebody else's key entry (with junk for a signature) in front
 	// of, or behind, the genuine entries — the fee step charges the first entry's account
-	if tx.Kind != "OLVM" && len(g.W.G.U.Users) > 0 && g.pct(g.Strange/4, "sig-list") {
-		var stx action.SignedTx
-		if json.Unmarshal(tx.Bytes, &stx) == nil && len(stx.Signatures) > 0 {
+	if tx.Kind != "OLVM" && len(g.W.G.U.Users) > 0 && g.pct(g.Strange/6, "sig-list") {
+		var stx paction.SignedTx
+		if serialize.GetSerializer(serialize.NETWORK).Deserialize(tx.Bytes, &stx) == nil && len(stx.Signatures) > 0 {
 			victim := g.W.G.U.Users[g.Uniform(len(g.W.G.U.Users), "sig-list-victim")]
-			extra := action.Signature{Signer: victim.Pub, Signed: []byte("sixty-four bytes that are not a signature of anything whatsoever.")}
+			extra := paction.Signature{Signer: victim.Pub, Signed: []byte("sixty-four bytes that are not a signature of anything whatsoever.")}
 			if g.Uniform(3, "sig-list-where") == 0 {
 				stx.Signatures = append(stx.Signatures, extra)
 			} else {
-				stx.Signatures = append([]action.Signature{extra}, stx.Signatures...)
+				stx.Signatures = append([]paction.Signature{extra}, stx.Signatures...)
 			}
-			tx.Bytes = stx.SignedBytes()
+			if b, err := serialize.GetSerializer(serialize.NETWORK).Serialize(stx); err == nil {
+				tx.Bytes = b
+			}
 			tx.Tags = append(tx.Tags, "signature-list-extended")
 		}
 	}
